@@ -31,7 +31,9 @@ Theorem C12_same_effect : forall (lit : value -> text) (parse_lit : text -> valu
 Proof. exact same_effect. Qed.
 Print Assumptions C12_same_effect.
 
-(* MAIN (closed form): with the concrete literal syntax lit_c / parse_c, on the decidable class inclass_C12 *)
+(* MAIN (closed form): with the concrete literal syntax lit_c / parse_c, on the decidable class inclass_C12; the start of
+   the range is given as it is SPELLED (base, full id, branch label, unique prefix, head) together with the revision map
+   and is resolved to the revision id first (resolve_start), as get_current_heads does offline *)
 Theorem C12_main : forall i, inclass_C12 i = true -> C12_holds i (model_C12 i).
 Proof. exact main_concrete. Qed.
 Print Assumptions C12_main.
@@ -176,7 +178,7 @@ Example C12_text_nonvacuous :
   (forall s, supported_c s = true -> stext_wf (render_c s) = true) /\
   (forall s g core', supported_c s = true -> Forall2 (tok_sim g) (st_core (render_c s)) core' ->
                      sqlite_c (flat core' ++ [59]) = Some (map_stmt g s)) /\
-  inclass_C12 (mkIn toy_db [] toy_steps [] (mkCfg None false)) = true /\
+  inclass_C12 (mkIn toy_db SpBase [] toy_steps [] (mkCfg None false)) = true /\
   (forall l, run_offline_plain lit_c untext_c [] toy_steps = Some l -> forallb supported_c l = true) /\
   exists d, offline_text_effect lit_c parse_c untext_c render_c sqlite_c [59] toy_db [] toy_steps = Some d /\
             ob_vers (observable d) = [5] /\ map (fun t => length (t_rows t)) (ob_tabs (observable d)) = [1%nat].
